@@ -770,6 +770,10 @@ def gen_singular(rng, n, kind):
     return ('arr', kind, (n, n), [x for r in rows for x in r])
 
 
+import math as _math
+TINY_SCALARS = [1e-300, 5e-324, -5e-324, 1e-13, -1e-16, 0.1 + 0.2 - 0.3, _math.sin(_math.pi), 1e-13j, complex(1e-300, 0.0),
+                complex(0.0, -5e-324), complex(-1e-16, 1e-16)]
+
 EXPONENTS = [('i', 0), ('i', 1), ('i', 2), ('i', 3), ('i', 5), ('i', -1), ('i', -2), ('i', -3),
              ('f', 2.0), ('f', 0.0), ('f', -0.0), ('f', -1.0), ('f', -2.0), ('f', 0.5), ('f', 2.5), ('f', -1.5),
              ('c', 2 + 0j), ('c', 1j), ('c', -1 + 0j)]
@@ -973,6 +977,18 @@ def op_level(ctx, res, rng, rec):
                 run_op_case(op, a, b, True, rec, res, terms, metas)
                 nnp += 1
     res.distribution['operator_numpy_scalar_cases'] = nnp
+    # boundary of "nonzero": scalars of tiny modulus and rounding residues are NOT the zero scalar -- + and - in every form
+    ntiny = 0
+    for z in TINY_SCALARS:
+        k = 'c' if isinstance(z, complex) else 'f'
+        for sc in (('num', k, z), ('num', k, z, 'np')):
+            for sh in rng.sample([x for x in SHAPES if x != ()], 3 if ctx['tier'] == 'quick' else 8):
+                for op in ('Add', 'Sub'):
+                    arr = gen_value(rng, sh, rng.choice(kinds))
+                    for a, b in ((sc, arr), (arr, sc)):
+                        run_op_case(op, a, b, True, rec, res, terms, metas)
+                        ntiny += 1
+    res.distribution['operator_tiny_scalar_cases'] = ntiny
     # powers of square matrices: every exponent class x singular / non-singular x entry kinds, both switch positions
     npow = 0
     for n in (2, 3, 4):
@@ -1215,6 +1231,12 @@ SCALAR_CALLS = [
 SCALAR_NAMES = {'pi': ('num', 'f', 3.141592653589793), 'e': ('num', 'f', 2.718281828459045), 'i': ('num', 'c', 1j),
                 'c64': ('num', 'f', 2.0, 'np'), 'c128': ('num', 'c', 1 + 2j, 'np'), 'ci64': ('num', 'i', 3, 'np'),
                 'z64': ('num', 'f', 0.0, 'np'), 'z128': ('num', 'c', 0j, 'np'), 'pf': ('num', 'f', 2.0), 'pc': ('num', 'c', 1 - 1j)}
+
+
+# nonzero scalars of tiny modulus as variable values (Python- and numpy-typed)
+TINY_NAMES = {'t13': ('num', 'f', 1e-13), 't300': ('num', 'f', 1e-300), 'tden': ('num', 'f', 5e-324), 'tneg': ('num', 'f', -1e-16),
+              'tc': ('num', 'c', 1e-13j), 'tcd': ('num', 'c', complex(0.0, -5e-324)), 'tn13': ('num', 'f', 1e-13, 'np'),
+              'tnc': ('num', 'c', complex(1e-16, -1e-16), 'np')}
 
 
 class FormulaGen:
@@ -1582,8 +1604,14 @@ def formula_level(ctx, res, rng, rec):
               ('var', (3,)), ('var', (2,)), ('var', (2, 2)), ('var', (2, 3)), ('var', (3, 1)), ('var', (2, 2, 2))]
     sources = [('fun', text, table) for text, table in SCALAR_CALLS] + [('name', nm, 'default') for nm in sorted(SCALAR_NAMES)] \
         + [('lit', '2', 'none'), ('lit', '0', 'none')]
+    residue = ('par', ('sum', ('num', '0.1'), [('+', ('num', '0.2')), ('-', ('num', '0.3'))]))
+    tiny = [('fun', 'sin(pi)', 'default'), ('fun', 'cos(pi/2)', 'default'), ('fun', 'tan(pi)', 'default'), ('fun', 'sin(2*pi)', 'default'),
+            ('lit', '1e-13', 'none'), ('lit', '1e-300', 'none'), ('tree', residue, 'none')] \
+        + [('name', nm, 'none') for nm in sorted(TINY_NAMES)]
+    sources = [(k_, t_, tb_, OPS) for k_, t_, tb_ in sources] + [(k_, t_, tb_, ['Add', 'Sub']) for k_, t_, tb_ in tiny]
+    base_env['pi'] = ('num', 'f', _math.pi)
     full = thorough or ctx.get('escalate')
-    for kind, text, table in sources:
+    for kind, text, table, src_ops in sources:
         env0 = dict(base_env)
         if kind == 'fun':
             stv, val = core.guarded(lambda: evaluator_value(text, env0, table))
@@ -1593,11 +1621,13 @@ def formula_level(ctx, res, rng, rec):
                 continue
             leaf = ('fun', text, leafv)
         elif kind == 'name':
-            env0[text] = SCALAR_NAMES[text]
+            env0[text] = SCALAR_NAMES[text] if text in SCALAR_NAMES else TINY_NAMES[text]
             leaf = ('var', text)
+        elif kind == 'tree':
+            leaf = text
         else:
             leaf = ('num', text)
-        for op in OPS:
+        for op in src_ops:
             for side in ('left', 'right'):
                 picks = arrays if full else [arrays[rng.randrange(3)], arrays[3 + rng.randrange(6)]]
                 for akind, spec in picks:
@@ -1747,7 +1777,8 @@ def scalar_grader_case(answer, inp):
 
 
 def scalar_grader_inputs():
-    out = []
+    out = [('v', 'v+1e-13'), ('v', '1e-13+v'), ('M', 'M-1e-300'), ('v', 'v+(0.1+0.2-0.3)'), ('v', 'v+sin(pi)'), ('M', 'sin(pi)-M'),
+           ('v', 'v+1e-13*i')]
     for src, k in SCALAR_GRADER_SOURCES:
         vec = '[%d,%d,%d]' % (k, k, k)
         out += [('v+' + vec, src + '+v'), (vec + '-v', src + '-v'), ('v', src + '/v'), ('M', src + '^M'), ('M', src + '/M'),
